@@ -52,6 +52,7 @@ type TrzszRelay struct {
 	osStdoutChan    chan []byte
 	bypassTmuxChan  chan []byte
 	bufferLock      sync.Mutex
+	resetLock       sync.Mutex
 	stdinBuffer     *trzszBuffer
 	stdoutBuffer    *trzszBuffer
 	tmuxPaneWidth   int32
@@ -476,7 +477,11 @@ func (r *TrzszRelay) handshake() {
 }
 
 func (r *TrzszRelay) resetToStandby(status int32) {
-	if !r.relayStatus.CompareAndSwap(status, kRelayStandBy) {
+	// Clean up before standby becomes visible: once it is, the next trigger may start a new transfer
+	// whose tunnel listener and tunnel relay must not be torn down by this (late) cleanup.
+	r.resetLock.Lock()
+	defer r.resetLock.Unlock()
+	if r.relayStatus.Load() != status {
 		return
 	}
 	if listener := r.tunnelListener.Load(); listener != nil {
@@ -488,6 +493,7 @@ func (r *TrzszRelay) resetToStandby(status int32) {
 		r.tunnelRelay.Store(nil)
 	}
 	r.tunnelConnected.Store(false)
+	r.relayStatus.Store(kRelayStandBy)
 	tmuxRefreshClient()
 }
 
@@ -622,6 +628,9 @@ func (t *tunnelRelay) wrapInput() {
 			}
 			break
 		}
+		if err != nil { // e.g. the connection was closed by the other pump
+			break
+		}
 	}
 }
 
@@ -661,6 +670,9 @@ func (t *tunnelRelay) wrapOutput() {
 			for t.relay.Load() != nil { // wait for reset
 				time.Sleep(50 * time.Millisecond)
 			}
+			break
+		}
+		if err != nil { // e.g. the connection was closed by the other pump
 			break
 		}
 	}
